@@ -9,6 +9,7 @@ in :mod:`vtlengine.ViralPropagation.sql`.
 
 from dataclasses import dataclass, field
 from typing import Any, Dict, List, Optional
+from vtlengine import _verif
 
 
 @dataclass
@@ -77,6 +78,7 @@ _current_registry: Optional[ViralPropagationRegistry] = None
 
 def get_current_registry() -> ViralPropagationRegistry:
     """Get the current viral propagation registry."""
+    _verif.yield_point("registry:get")
     global _current_registry  # noqa: PLW0603
     if _current_registry is None:
         _current_registry = ViralPropagationRegistry()
@@ -85,5 +87,6 @@ def get_current_registry() -> ViralPropagationRegistry:
 
 def set_current_registry(registry: ViralPropagationRegistry) -> None:
     """Set the current viral propagation registry (called by Interpreter)."""
+    _verif.yield_point("registry:set")
     global _current_registry  # noqa: PLW0603
     _current_registry = registry
